@@ -123,7 +123,7 @@ func (g *gen) c07parse(set int, names []string) Op {
 	case n < 80:
 		return Op{ID: id, Kind: opParseGlob, Set: set, Recv: recv, Text: g.pick(constGlobs[:3]), Via: g.pick([]string{"const", "trusted"})}
 	default:
-		return Op{ID: id, Kind: opParseFS, Set: set, Recv: recv, Files: []string{g.pick([]string{"*.tmpl", "sub/*.tmpl", "a.tmpl", "c.tmpl"})}}
+		return Op{ID: id, Kind: opParseFS, Set: set, Recv: recv, Via: g.pick([]string{"", "", "dirfs", "sub"}), Files: []string{g.pick([]string{"*.tmpl", "sub/*.tmpl", "a.tmpl", "c.tmpl", "d.tmpl"})}}
 	}
 }
 
